@@ -112,11 +112,25 @@ PROPS = {
                                  "known gaps kept visible: both command and commands given (finding F7); unknown keys inside signature are dropped (no inline catch-all; F9)"],
         explanation="Per-key normal-form theorems (bare list, command join, label/key aliases, other keys preserved exactly once, contents steps, scalar/unknown verbatim, plugins, env, matrix/cache shorthands) over regenerated descriptors; order-preserving normal-form correspondence on the real Parse + json.Marshal; documented-rule and key-preservation oracles on the implementation.",
     ),
+    "C07": dict(
+        level="proof", gen=False, corr_name="ordered.DecodeYAML over node graphs (driver mode c07)",
+        trusted_base=COMMON_TB + ["yaml.v3 scanner/parser: the model starts at the *yaml.Node graph the real parser (or the harness's graph surgery) produces; the harness serialises that graph (kinds, tags, values, content, alias targets) for the driver",
+                                 "yaml.v3 scalar decoding of keys and values (n.Decode) is an input to the model: the harness supplies each scalar's decoded value and canonical key text",
+                                 "totality is proved under AliasFlat (an alias node never targets another alias node), which every graph the yaml.v3 parser builds satisfies; hand-built alias-to-alias chains are outside the theorem (canonicalMapKey would not terminate on an alias cycle, noted in DESIGN)",
+                                 "Go stack depth: a deep but finite recursion is a runtime limit outside the model"],
+        explanation="Structural model of decodeYAML / rangeYAMLMapImpl / canonicalMapKey over an indexed node store with explicit fuel; proved: fuel bound (totality), cycle detection on the decoding path, alias = copy of target, merge cycles tolerated, merge walk = specification (explicit keys first-position, earlier sources beat later ones, nested merges), key canonicalisation through aliases, bad keys rejected. Tied by correspondence on generated anchored documents parsed by the real yaml.v3 plus graph surgery for cycles.",
+    ),
 }
 
 NOT_APPLICABLE = {}
 
 MANIFEST_TEXT = {
+    "C07": dict(
+        text="Kernel-checked proofs (Lean 4) about a structural model of ordered.DecodeYAML (decodeYAML, rangeYAMLMapImpl, canonicalMapKey) over an indexed yaml.Node store: decoding terminates within an explicit fuel bound on every alias-flat graph; a node that is its own ancestor on the decoding path yields the recursion error; an alias decodes to an independent copy of its target at every site; the merge walk never reports recursion, tolerates merge cycles, and yields exactly the specification (explicit keys at their written position beat merged keys, earlier merge sources beat later ones, nested and sequence merges unfold depth-first); alias keys are canonicalised through their targets; null and non-scalar keys are errors. Tied on every run by correspondence: generated flow-style documents with anchors, aliases as values and keys, and single/repeated/sequence/inline merges are parsed by the real yaml.v3, one in four gets a back-edge by graph surgery, and the decoded value or error class is compared with the model's.",
+        design_ref="DESIGN.md §6 C07",
+        note="Trusted: Lean kernel; yaml.v3 up to the node graph and for scalar decoding; the correspondence. Totality needs AliasFlat (true of parser output).",
+        technique="Lean 4 structural-recursion model with fuel bound, merge-walk = specification refinement proof + node-graph correspondence with graph surgery",
+    ),
     "C03": dict(
         text="Kernel-checked proofs (Lean 4) about the composition of the parse model and the JSON marshalling model, both interpreting struct descriptors regenerated from the source: a bare step list becomes steps; command/commands collapse into one newline-joined command; name and id/identifier fill label and key only when those are absent (otherwise the alias stays an ordinary key); every other key of a command step appears in the marshalled step exactly once with its input value; wait/input/trigger mappings keep every key; scalar and unknown steps are emitted verbatim; plugins in all three forms become an ordered list of single-entry objects keyed by canonical source with empty configs as null; env scalars become strings in order; matrix and cache shorthands take their canonical shapes. Tied by order-preserving comparison of the model's normal form with the re-decoded real output on grammar-generated documents (block/flow YAML, JSON) and by rule/key-preservation oracles on the implementation. Recorded gaps: F7 (command + commands), F9 (unknown keys inside signature).",
         design_ref="DESIGN.md §6 C03",
